@@ -42,7 +42,11 @@ func (c *Ctx) calleeContract(g *FnGen, com *ssa.CallCommon) (*FuncContract, *cal
 		t := types.Unalias(com.Value.Type())
 		ct.sig = t.Underlying().(*types.Signature)
 		if n, ok := t.(*types.Named); ok {
-			ct.key = qualName(n) + ".(functype)"
+			pp := ""
+			if n.Obj().Pkg() != nil {
+				pp = n.Obj().Pkg().Path()
+			}
+			ct.key = pp + ".(" + n.Obj().Name() + ").functype"
 		} else {
 			ct.key = "?.(func " + t.String() + ")"
 		}
@@ -311,7 +315,10 @@ func (g *FnGen) execSlice(s *State, x *ssa.Slice) {
 			hi = app("s-len", v)
 		}
 		g.panicIf(s, or(app("<", lo, "0"), app("<", hi, lo), app(">", hi, app("s-cap", v))), "slice-bounds")
-		g.vals[x] = &Val{term: g.bind("sl", "Slice", app("mk-slice", app("s-arr", v), app("+", app("s-off", v), lo), app("-", hi, lo), app("-", app("s-cap", v), lo)))}
+		nsl := g.fresh("sl", "Slice")
+		g.defs = append(g.defs, eq(nsl, app("mk-slice", app("s-arr", v), app("+", app("s-off", v), lo), app("-", hi, lo), app("-", app("s-cap", v), lo))))
+		g.defs = append(g.defs, fmt.Sprintf("(forall ((j Int)) (! (= (elemref %s j) (elemref %s (+ %s j))) :pattern ((elemref %s j))))", nsl, v, lo, nsl))
+		g.vals[x] = &Val{term: nsl}
 	default: // *[N]T
 		p, ok := x.X.Type().Underlying().(*types.Pointer)
 		if !ok {
@@ -421,7 +428,7 @@ func (g *FnGen) primPaths(t types.Type) []primPath {
 // copyElems returns, per heap sort, a heap equal to the current one except
 // that elements dst[dstStart .. dstStart+n) (cells of type et) hold the
 // old contents of src[srcStart .. srcStart+n).
-func (g *FnGen) copyElems(s *State, src *State, dstArr, dstStart, srcArr, srcStart, n string, et types.Type) {
+func (g *FnGen) copyElems(s *State, src *State, dstArr, dstStart string, srcRefOf func(idx string) string, n string, et types.Type) {
 	bySort := map[string][]primPath{}
 	for _, pp := range g.primPaths(et) {
 		bySort[pp.sort] = append(bySort[pp.sort], pp)
@@ -447,7 +454,7 @@ func (g *FnGen) copyElems(s *State, src *State, dstArr, dstStart, srcArr, srcSta
 			idx := app("phd", tail)
 			conds = append(conds, "((_ is pcons) "+tail+")", eq(app("ptl", tail), app("rpath", dstArr)), eq(app("rid", "r"), app("rid", dstArr)),
 				app("<=", dstStart, idx), app("<", idx, app("+", dstStart, n)))
-			srcRef := refSub(srcArr, app("+", srcStart, app("-", idx, dstStart)))
+			srcRef := srcRefOf(idx)
 			for _, f := range pp.path {
 				srcRef = refFld(srcRef, f)
 			}
@@ -483,7 +490,7 @@ func (g *FnGen) execAppend(s *State, com *ssa.CallCommon, res ssa.Value) {
 	}
 	s1, s2 := s.clone(), s.clone()
 	nr := g.allocRef(s2, "append")
-	g.copyElems(s2, pre, nr, "0", app("s-arr", a), app("s-off", a), app("s-len", a), et)
+	g.copyElems(s2, pre, nr, "0", func(idx string) string { return app("elemref", a, idx) }, app("s-len", a), et)
 	if static >= 0 {
 		for i := int64(0); i < static; i++ {
 			v := g.bind("apv", g.c.reg.sortOf(et), g.load(pre, refSub(srcArr, intLit(i)), et))
@@ -491,8 +498,9 @@ func (g *FnGen) execAppend(s *State, com *ssa.CallCommon, res ssa.Value) {
 			g.storeTo(s2, refSub(nr, app("+", app("s-len", a), intLit(i))), et, v)
 		}
 	} else {
-		g.copyElems(s1, pre, app("s-arr", a), app("+", app("s-off", a), app("s-len", a)), app("s-arr", b), app("s-off", b), n, et)
-		g.copyElems(s2, pre, nr, app("s-len", a), app("s-arr", b), app("s-off", b), n, et)
+		dst1 := app("+", app("s-off", a), app("s-len", a))
+		g.copyElems(s1, pre, app("s-arr", a), dst1, func(idx string) string { return app("elemref", b, app("-", idx, dst1)) }, n, et)
+		g.copyElems(s2, pre, nr, app("s-len", a), func(idx string) string { return app("elemref", b, app("-", idx, app("s-len", a))) }, n, et)
 	}
 	ncap := g.fresh("acap", "Int")
 	g.assume(s, app(">=", ncap, newLen))
@@ -509,6 +517,8 @@ func (g *FnGen) execAppend(s *State, com *ssa.CallCommon, res ssa.Value) {
 		app("mk-slice", app("s-arr", a), app("s-off", a), newLen, app("s-cap", a)),
 		app("mk-slice", nr, "0", newLen, ncap))))
 	g.vals[res] = &Val{term: r}
+	// bridge for E-matching: element references of the result in terms of those of the operand
+	g.defs = append(g.defs, fmt.Sprintf("(forall ((j Int)) (! (= (elemref %s j) (ite %s (elemref %s j) (rsub %s j))) :pattern ((elemref %s j))))", r, inplace, a, nr, r))
 	// frame: in-place append writes into the backing array of the first argument
 	if g.fc != nil {
 		g.checkFrameCond(pre, app("s-arr", a), inplace, et, "append")
